@@ -76,6 +76,8 @@ func identIdx(id string) int {
 // standard registrations stay as they are).
 func addClients(st *refstore.Store) {
 	std := opfix.StdClients()
+	st.Clients["codeonly"] = &refstore.Client{ID: "codeonly", Secret: "codeonly-secret", Redirects: []string{"https://codeonly.example.com/cb"},
+		App: op.ApplicationTypeWeb, Auth: oidc.AuthMethodBasic, RespTypes: []oidc.ResponseType{oidc.ResponseTypeCode}, Grants: std[0].Grants, ATType: op.AccessTokenTypeBearer}
 	for cl, x := range idents {
 		if _, ok := st.Clients[x.id]; ok {
 			continue
